@@ -177,10 +177,11 @@ macro_rules! projections {
         let nf: u64 = if $rep.thorough() { 17 } else { 7 };
         let aspects = [1e-2, 0.5, 1.0, 16.0 / 9.0, 1e2];
         let nears = [1e-3, 0.1, 1.0];
-        let ratios = [1.0 + 1.0 / 1024.0, 2.0, 1e3, 1e6];
+        // the far/near axis keeps every decade-scale regime a shortcut could single out (round 6: a change acting only above 1e5)
+        let ratios = [1.0 + 1.0 / 1024.0, 2.0, 10.0, 1e3, 1e4, 3e5, 1e6];
         // probe points in normalised frustum coordinates (u, v, depth fraction)
-        $rep.sweep(&format!("{tn}/perspective_*/{nf} fov x 5 aspect x 3 near x 4 far ratios x 7 variants"), nf * 5 * 3 * 4 * 7, |idx, acc| {
-            let d = digits(idx, [nf, 5, 3, 4, 7]);
+        $rep.sweep(&format!("{tn}/perspective_*/{nf} fov x 5 aspect x 3 near x 7 far ratios x 7 variants"), nf * 5 * 3 * 7 * 7, |idx, acc| {
+            let d = digits(idx, [nf, 5, 3, 7, 7]);
             let fov = (1e-2 + (PI - 2e-2) * d[0] as f64 / (nf - 1) as f64) as $S;
             let aspect = aspects[d[1]] as $S;
             let near = nears[d[2]] as $S;
@@ -304,7 +305,7 @@ macro_rules! projections {
 fn main() {
     let mut rep = Report::new("C11", "exploration");
     silence_panics();
-    rep.rule("cases = (constructor, parameter tuple): look_to/look_at for 27 eyes x all pairs of unit integer directions (dir, up) with |dir x up| >= 1e-3 x both handedness, on Mat4/Affine3A/Mat3/Mat3A/Quat and f64 forms, vs the rigid transform defined by the documented mapping; perspective_* (7 variants) on fov grid in (1e-2, pi-1e-2) x aspect {1e-2..1e2} x near {1e-3,.1,1} x far/near {1+2^-10,2,1e3,1e6}: all 16 entries vs the matrix derived from the documented depth values, w = -z/+z and fov/aspect scaling, tolerance scaled by far/(far-near) and the conditioning of tan; orthographic_* on every non-empty box of a 5^6 grid; project_point3/transform_point3/transform_vector3 on frustum corners, plane centres and interior points vs the f64 evaluation of M(p,1)/w; all cases non-trivial");
+    rep.rule("cases = (constructor, parameter tuple): look_to/look_at for 27 eyes x all pairs of unit integer directions (dir, up) with |dir x up| >= 1e-3 x both handedness, on Mat4/Affine3A/Mat3/Mat3A/Quat and f64 forms, vs the rigid transform defined by the documented mapping; perspective_* (7 variants) on fov grid in (1e-2, pi-1e-2) x aspect {1e-2..1e2} x near {1e-3,.1,1} x far/near {1+2^-10,2,10,1e3,1e4,3e5,1e6}: all 16 entries vs the matrix derived from the documented depth values, w = -z/+z and fov/aspect scaling, tolerance scaled by far/(far-near) and the conditioning of tan; orthographic_* on every non-empty box of a 5^6 grid; project_point3/transform_point3/transform_vector3 on frustum corners, plane centres and interior points vs the f64 evaluation of M(p,1)/w; all cases non-trivial");
     views!(rep, f32, EPS32, Vec3, [Mat4, Affine3A], [Mat3, Mat3A, Quat]);
     views!(rep, f64, EPS64, DVec3, [DMat4, DAffine3], [DMat3, DQuat]);
     projections!(rep, Mat4, f32, EPS32, Vec3);
